@@ -1069,7 +1069,7 @@ fn group_by_prefix(
             } else {
                 ctx.devices[fi.get_device_index()].min_prefix_len()
             };
-            let chunk = FileChunk::new(&fi.path, FilePos(0), prefix_len);
+            let chunk = FileChunk::new(&fi.path, FilePos(0), prefix_len).of_file_len(fi.len);
             ctx.hasher.hash_file_or_log_err(&chunk, |_| {})
         },
     );
@@ -1133,7 +1133,8 @@ fn group_by_suffix(
             progress.inc(1);
             // the suffix can't be longer than the file (e.g. large --max-suffix-size)
             let suffix_len = min(suffix_len, fi.len);
-            let chunk = FileChunk::new(&fi.path, fi.len.as_pos() - suffix_len, suffix_len);
+            let chunk = FileChunk::new(&fi.path, fi.len.as_pos() - suffix_len, suffix_len)
+                .of_file_len(fi.len);
             ctx.hasher
                 .hash_file_or_log_err(&chunk, |_| {})
                 .map(|new_hash| old_hash ^ new_hash)
@@ -1170,7 +1171,7 @@ fn group_by_contents(
         &ctx.devices,
         FileAccess::Sequential,
         |(fi, _)| {
-            let chunk = FileChunk::new(&fi.path, FilePos(0), fi.len);
+            let chunk = FileChunk::new(&fi.path, FilePos(0), fi.len).of_file_len(fi.len);
             ctx.hasher
                 .hash_file_or_log_err(&chunk, |bytes_read| progress.inc(bytes_read as u64))
         },
